@@ -194,6 +194,41 @@ func (g *Gen) MatrixScript(t int) []func() *Op {
 			}
 		}
 	}
+	if tp.NewObs != nil {
+		// the typed observer of this tuple (and its generic twin) for every other event type it is valid for
+		evs := []EvType{EvCreate, EvRemoveEntity, EvRemove, EvSet, EvCustom0}
+		if allRel {
+			evs = append(evs, EvRemoveRel)
+		}
+		for _, ev := range evs {
+			ev := ev
+			for _, tuple := range []int{t, -1} {
+				tuple := tuple
+				s = append(s, func() *Op {
+					op := mk(KRegObs)
+					op.Slot = len(g.M.Obs)
+					o := &ObsSpec{Ev: ev, Tuple: tuple, UnregOther: -1, Probe: tuple >= 0}
+					if tuple < 0 {
+						o.Comps = append([]int{}, cs...)
+					}
+					op.Obs = o
+					return op
+				})
+			}
+		}
+		// a custom event carrying the tuple's components for an entity that has them
+		s = append(s, newEnt(0), func() *Op {
+			e, ok := with()
+			if !ok {
+				return nil
+			}
+			op := mk(KEmit)
+			op.Ev = EvCustom0
+			op.E = e
+			op.Add = append([]int{}, cs...)
+			return op
+		})
+	}
 	for fn := 0; fn < 3; fn++ {
 		s = append(s, newEnt(fn), newBatch(fn))
 	}
@@ -346,6 +381,15 @@ func (g *Gen) MatrixScript(t int) []func() *Op {
 		}
 	}
 	if tp.NewObs != nil {
+		s = append(s, newEnt(1), func() *Op {
+			e, ok := with()
+			if !ok {
+				return nil
+			}
+			op := mk(KRemoveEntity)
+			op.E = e
+			return op
+		})
 		s = append(s, func() *Op {
 			// unregister the typed observers again
 			for i := range g.M.Obs {
